@@ -192,6 +192,12 @@ for bits in (128, 192, 256):
     KERNELS.append(('sse_t1/aes%d_ecb_by8_sse.asm' % bits, 'aes_ecb_enc_%d_by8_sse' % bits, 'ecb_enc', bits))
     KERNELS.append(('sse_t1/aes%d_ecb_by8_sse.asm' % bits, 'aes_ecb_dec_%d_by8_sse' % bits, 'ecb_dec', bits))
     KERNELS.append(('sse_t1/aes%d_cntr_by8_sse.asm' % bits, 'aes_cntr_%d_sse' % bits, 'cntr', bits))
+    KERNELS.append(('avx2_t1/aes%d_cbc_dec_by8_avx.asm' % bits, 'aes_cbc_dec_%d_avx' % bits, 'cbc_dec', bits))
+    KERNELS.append(('avx2_t1/aes%d_ecb_by8_avx.asm' % bits, 'aes_ecb_enc_%d_avx' % bits, 'ecb_enc', bits))
+    KERNELS.append(('avx2_t1/aes%d_ecb_by8_avx.asm' % bits, 'aes_ecb_dec_%d_avx' % bits, 'ecb_dec', bits))
+    KERNELS.append(('avx2_t1/aes%d_cntr_by8_avx.asm' % bits, 'aes_cntr_%d_avx' % bits, 'cntr', bits))
+KERNELS.append(('avx2_t1/aes_cfb_avx.asm', 'aes_cfb_128_one_avx', 'cfb_one', 128))
+KERNELS.append(('avx2_t1/aes_cfb_avx.asm', 'aes_cfb_256_one_avx', 'cfb_one', 256))
 KERNELS.append(('sse_t1/aes_cfb_sse.asm', 'aes_cfb_128_one_sse', 'cfb_one', 128))
 KERNELS.append(('sse_t1/aes_cfb_sse.asm', 'aes_cfb_256_one_sse', 'cfb_one', 256))
 
